@@ -253,3 +253,5 @@ def c10(res, rng, tier):
                    for i in range(0, len(cases), max(1, len(cases) // 6))]
 
 import props_dict
+import props_conv
+import props_enc
